@@ -251,6 +251,24 @@ impl World {
         v.into_iter().collect()
     }
 
+    /// The same tables at schema-qualified paths (`main.users`: `main` is SQLite's own schema name, so the rendered
+    /// SQL still runs), named `main_users` ..., registered under their path only: SQL text and privacy unit refer to
+    /// them by the last path component, which resolves by suffix and differs from the Qrlew name.
+    pub fn relations_qualified(&self) -> Hierarchy<Arc<Relation>> {
+        let mut v: Vec<(Vec<String>, Arc<Relation>)> = vec![];
+        for t in &self.tables {
+            let rel = match t.relation(None) {
+                Relation::Table(tab) => {
+                    use qrlew::relation::Variant as _;
+                    Relation::Table(Table::new(format!("main_{}", t.name), vec!["main".to_string(), t.name.to_string()].into(), tab.schema().clone(), tab.size().clone()))
+                }
+                r => r,
+            };
+            v.push((vec!["main".to_string(), t.name.to_string()], Arc::new(rel)));
+        }
+        v.into_iter().collect()
+    }
+
     pub fn qrlew_name(table: &str) -> &str {
         match table {
             "users" => "people",
